@@ -19,9 +19,11 @@ import time
 import cybuild
 import lib
 
-# Model parameter `Cfg.guardMinusOne`: False = DivInt/ModInt of the pinned tree (no `b == -1` guard in the
-# helpers), True = helpers repaired as in tools/claims/C03.fix.patch.  ONE-LINE SWITCH after the repair.
-GUARD_MINUS_ONE = True
+# Model parameters `Cfg.guardMinusOne` (DivInt/ModInt start with an `if (b == -1)` guard) and `Cfg.guardAllWidths`
+# (DivNode.minus1_check: OverflowError guard for every signed width and for constant divisors, instead of the old
+# `sizeof(T) == sizeof(long)` guard inside the zero-check block).  Both are READ FROM THE STAGED SOURCE on every run
+# (detect_variant); theorems exist for all four combinations.
+VARIANT = {"guardMinusOne": None, "guardAllWidths": None}
 UB_SAMPLES = 2
 CRASH_CAP = 6
 
@@ -214,7 +216,8 @@ def oracle(op, cd, rt_ct, a, b):
 
 def model_line(op, rt_ct, cd, bconst, a, b):
     w, signed = ct_info(rt_ct)[:2]
-    return "C03 %s %d %d %d %d %d %d %d %d" % (op, w, signed, WL, cd, bconst, GUARD_MINUS_ONE, a, b)
+    return "C03 %s %d %d %d %d %d %d %d %d %d" % (op, w, signed, WL, cd, bconst, VARIANT["guardMinusOne"],
+                                                  VARIANT["guardAllWidths"], a, b)
 
 
 # --------------------------------------------------------------------------
@@ -634,12 +637,13 @@ def run(ctx):
                 "C reference; non-trivial = divisor != 0; distinct by (type, cdivision, function, a, b)")
     ctx.explanation = ("Theorems cover, for every width w >= 2 and both signednesses, the generated zero check, the b == -1 overflow guard, "
                        "the cdivision selection and the DivInt/ModInt bodies including both b_is_constant forms. NOT covered by a theorem: "
-                       "(1) MIN % -1 in signed types: the full statement is false on this tree (theorem mod_full_false; known finding); "
-                       "(2) the compiler's choice of the result type and the int <-> Python object conversions around the operation are only "
+                       "(1) with the overflowcheck directive the guard is also emitted under cdivision and the division goes through the "
+                       "Overflow.c helpers: not modelled here (C04); (2) the compiler's choice of the result type and the int <-> Python object conversions around the operation are only "
                        "differentially checked; (3) ModFloat (float operands) belongs to C06.")
     ctx.assumptions = ["two's complement, no padding bits, CHAR_BIT = 8 (width = 8*sizeof, probed with ctypes: long is %d bits)" % WL,
                        "C99/C11 6.5.5 semantics of / and % (truncation; zero divisor and unrepresentable quotient undefined)"]
-    ctx.notes["guardMinusOne"] = GUARD_MINUS_ONE
+    detect_variant(ctx)
+    ctx.notes["model_variant_read_from_source"] = dict(VARIANT)
     try:
         cur = anchor_hashes(ctx)
         drift = sorted(k for k in cur if ANCHORS.get(k) != cur[k])
@@ -678,9 +682,8 @@ def run(ctx):
             check_module(ctx, m, [(case["func"], case["a"], case.get("b"))])
             reproduced[os.path.basename(path)] = len(ctx.violations) > nv
     ctx.notes["corpus_witness_reproduces"] = reproduced
-    if reproduced and not any(reproduced.values()) and not GUARD_MINUS_ONE:
-        ctx.notes["witness_status"] = ("witness no longer reproduces: the defect seems repaired; set GUARD_MINUS_ONE = True in "
-                                       "harness/props/c03.py and use lean/props/C03.json from tools/fixes/C03/")
+    if reproduced and not any(reproduced.values()):
+        ctx.notes["witness_status"] = "the F1 witnesses no longer fail (repaired helpers: MIN % -1 == 0)"
     # 3. differential correspondence: cases generated sequentially (one seeded rng), model + implementation runs
     #    in worker threads (child processes), three-way comparison sequentially
     t0 = time.time()
@@ -719,7 +722,7 @@ def run(ctx):
         ctx.notes["exprnodes_line_coverage"] = exprnodes_coverage(ctx)
     except Exception as e:      # coverage is reporting only, never a verdict
         ctx.notes["exprnodes_line_coverage"] = {"error": repr(e)}
-    ctx.sample({"model_line_format": "C03 <div|mod> w signed wl cdivision bConst guardMinusOne a b"})
+    ctx.sample({"model_line_format": "C03 <div|mod> w signed wl cdivision bConst guardMinusOne guardAllWidths a b"})
 
 
 # --------------------------------------------------------------------------
@@ -782,15 +785,15 @@ def exprnodes_coverage(ctx):
 # --------------------------------------------------------------------------
 # anchor drift (DESIGN 2.4 layer 3): never a verdict, only raises the differential budget
 
-# name -> sha256[:16] of the whitespace-normalised source at the time the model was written (pinned tree).
-# With tools/fixes/C03/C03.fix.patch applied: "CMath.c:DivInt": "4ca3c9cfd7b1652a", "CMath.c:ModInt": "ca7bb33090c47ff0".
+# name -> sha256[:16] of the whitespace-normalised source at the time the model was last aligned
+# (tree with the DivInt/ModInt `b == -1` repair b85f537bc and DivNode.minus1_check 10d370e7a).
 ANCHORS = {
     "CMath.c:DivInt": "4ca3c9cfd7b1652a",
     "CMath.c:ModInt": "ca7bb33090c47ff0",
-    "Overflow.c:UnaryNegOverflows.proto": "71111d19548c460b",
-    "ExprNodes.py:DivNode.analyse_operation": "fe01eab83ec44138",
+    "Overflow.c:__PYX_MIN defines": "a0df1fc7e2e43d97",
+    "ExprNodes.py:DivNode.analyse_operation": "e5398f8014871b4f",
     "ExprNodes.py:DivNode.generate_evaluation_code": "e74e62acf66941a5",
-    "ExprNodes.py:DivNode.generate_div_warning_code": "c644e5ef204dc864",
+    "ExprNodes.py:DivNode.generate_div_warning_code": "3fc915923f025bd1",
     "ExprNodes.py:DivNode.calculate_result_code": "61e8d1af7a9ee29b",
     "ExprNodes.py:ModNode.analyse_operation": "12f49e39551bf081",
     "ExprNodes.py:ModNode.generate_evaluation_code": "0c9e04ffba186880",
@@ -805,12 +808,15 @@ def anchor_hashes(ctx):
     import re
     from Cython.Compiler import ExprNodes
     out = {}
-    for fname, sections in (("CMath.c", ("DivInt", "ModInt")), ("Overflow.c", ("UnaryNegOverflows.proto",))):
+    for fname, sections in (("CMath.c", ("DivInt", "ModInt")),):
         txt = open(os.path.join(ctx.stage, "Cython", "Utility", fname)).read()
         for sec in sections:
             m = re.search(r"^/{5,} %s /{5,}\n(.*?)(?=^/{5,} [\w.]+ /{5,}$|\Z)" % re.escape(sec), txt, re.S | re.M)
             body = m.group(1) if m else "<section missing>"
             out["%s:%s" % (fname, sec)] = hashlib.sha256(" ".join(body.split()).encode()).hexdigest()[:16]
+    ov = open(os.path.join(ctx.stage, "Cython", "Utility", "Overflow.c")).read()
+    defs = [" ".join(l.split()) for l in ov.split("\n") if re.match(r"#define __PYX_(MIN|HALF_MAX|IS_UNSIGNED)\(", l)]
+    out["Overflow.c:__PYX_MIN defines"] = hashlib.sha256("\n".join(defs).encode()).hexdigest()[:16]
     for cls, meths in (("DivNode", ("analyse_operation", "generate_evaluation_code", "generate_div_warning_code", "calculate_result_code")),
                        ("ModNode", ("analyse_operation", "generate_evaluation_code", "calculate_result_code")),
                        ("NumBinopNode", ("compute_c_result_type",))):
@@ -821,3 +827,52 @@ def anchor_hashes(ctx):
                 src = "<%r>" % e
             out["ExprNodes.py:%s.%s" % (cls, mname)] = hashlib.sha256(" ".join(src.split()).encode()).hexdigest()[:16]
     return out
+
+
+# --------------------------------------------------------------------------
+# which variant of the modelled code is in the tree (regenerated model parameters, DESIGN 2.4 layer 2)
+
+
+def utility_section(ctx, fname, sec):
+    import re
+    txt = open(os.path.join(ctx.stage, "Cython", "Utility", fname)).read()
+    m = re.search(r"^/{5,} %s /{5,}\n(.*?)(?=^/{5,} [\w.]+ /{5,}$|\Z)" % re.escape(sec), txt, re.S | re.M)
+    return m.group(1) if m else None
+
+
+def detect_variant(ctx):
+    """literal extraction only; anything unrecognised is a broken tie (reported), never a crash"""
+    import inspect
+    import re
+    from Cython.Compiler import ExprNodes
+    problems = []
+    div, mod = utility_section(ctx, "CMath.c", "DivInt"), utility_section(ctx, "CMath.c", "ModInt")
+    pat = re.compile(r"if\s*\(\s*(?:unlikely\()?\s*b\s*==\s*-1\s*\)?\s*\)\s*return")
+    gd = bool(div and pat.search(div))
+    gm = bool(mod and re.search(pat.pattern + r"\s+0\s*;", mod))
+    if div is None or mod is None:
+        problems.append("CMath.c: section DivInt/ModInt not found")
+    if gd != gm:
+        problems.append("DivInt %s a b == -1 guard but ModInt %s: the model has one switch for both" % (
+            "has" if gd else "lacks", "has" if gm else "lacks"))
+    VARIANT["guardMinusOne"] = int(gm)
+    try:
+        ana = inspect.getsource(ExprNodes.DivNode.analyse_operation)
+        gen = inspect.getsource(ExprNodes.DivNode.generate_div_warning_code)
+    except Exception as e:
+        ana = gen = ""
+        problems.append("DivNode source not readable: %r" % e)
+    new = "self.minus1_check" in ana and "if self.minus1_check" in gen and "__PYX_MIN(" in gen
+    old = "sizeof(long)" in gen and "__Pyx_UNARY_NEG_WOULD_OVERFLOW" in gen
+    if new == old:
+        problems.append("DivNode overflow guard: neither (or both) of the two known forms recognised")
+    VARIANT["guardAllWidths"] = int(new)
+    if new:
+        # the model takes __PYX_MIN(T) = 0 - HALF_MAX(T) - HALF_MAX(T), HALF_MAX(T) = ((T) 1) << (sizeof(T)*8 - 2)
+        common = open(os.path.join(ctx.stage, "Cython", "Utility", "Overflow.c")).read()
+        norm = "".join(common.split())
+        if ("#define__PYX_HALF_MAX(type)((((type)1)<<(sizeof(type)*8-2)))" not in norm or
+                "#define__PYX_MIN(type)((__PYX_IS_UNSIGNED(type)?(type)0:0-__PYX_HALF_MAX(type)-__PYX_HALF_MAX(type)))" not in norm):
+            problems.append("Overflow.c: __PYX_MIN / __PYX_HALF_MAX differ from the modelled definitions")
+    for pr in problems:
+        ctx.tie_break("G model variant extraction", pr, {"variant": dict(VARIANT)})
